@@ -196,7 +196,7 @@ func c12World(cf c12cfg) (*appx.World, appx.Genesis, []appx.Op) {
 	w := &appx.World{U: u, Candidates: []appx.Candidate{
 		{Members: rot, Threshold: t0, IndexPlus: 1, Act: 5},
 		{Members: rot2, Threshold: uint64(cf.T), IndexPlus: 1, Act: 5},
-	}, SeenBlocks: []uint64{5}}
+	}, SeenBlocks: []uint64{5, 4}} // 4: a report below every activation block (an older report delivered late)
 	g := appx.Genesis{Members: members, Threshold: uint64(cf.T), ForkEnabled: cf.Fork, ForkHeight: cf.ForkHeight}
 	var ops []appx.Op
 	last := cf.N
@@ -213,6 +213,9 @@ func c12World(cf c12cfg) (*appx.World, appx.Genesis, []appx.Op) {
 			ops = append(ops, op("checkin", s, 2, 0))
 		}
 		ops = append(ops, op("seen", s, 0, 0), op("cfg", s, 0, 0))
+		if s == 0 {
+			ops = append(ops, op("seen", s, 1, 0))
+		}
 	}
 	ops = append(ops, endblock)
 	return w, g, ops
@@ -255,7 +258,11 @@ func c12Step(w *appx.World, genesisSet map[string]int64, n c12node, o appx.Op, s
 		case "checkin":
 			ref.Identities[w.U.Addrs[o.Sender]] = string(w.U.ValKey(o.Sender, o.A))
 		case "seen":
-			ref.Seen[w.U.Addrs[o.Sender]] = w.SeenBlocks[o.A]
+			// a keyper that reported block b has seen every block up to b: a lower report
+			// delivered later takes nothing back
+			if blk := w.SeenBlocks[o.A]; blk > ref.Seen[w.U.Addrs[o.Sender]] {
+				ref.Seen[w.U.Addrs[o.Sender]] = blk
+			}
 		case "cfg":
 			for _, ev := range res.Deliver.Events {
 				if ev.Type == "shutter.batch-config" {
